@@ -30,5 +30,5 @@ Definition show_op_log (l : list ev) : string :=
 (** case = (eager read limit, synchronous-loss transport?, timeOut, abortTimeout, request stream, history) *)
 Definition run_show (c : N * bool * option N * option N * list reqspec * list top) : string :=
   let '(eager, sync, tmo, abt, reqs, ops) := c in
-  let '(t, log) := trun eager sync reqs tmo abt (tst0 tmo) ops in
-  String.concat " " (map show_op_log log) ++ " |" ++ show_bool (s_closing (t_st t)).
+  let '(k, log) := srun eager sync reqs tmo abt (sst0 tmo) ops in
+  String.concat " " (map show_op_log log) ++ " |" ++ show_bool (s_closing (t_st (k_t k))).
